@@ -983,6 +983,8 @@ class Gen:
                 return (l, e[2])
             if e[2] == "u128" and t in ("i128", "int"):
                 return (f"(i128_as_u128 {l})", "u128")     # two's complement reinterpretation
+            if e[2] == "u32" and t == "usize":
+                return (f"({l} % 4294967296)", "u32")      # truncating cast
             raise Unsupported(f"cast of {t} as {e[2]}")
         if e[0] == "field" and e[2] != "0":
             l, t = self.pure(e[1], env)
@@ -1230,6 +1232,18 @@ class Gen:
 
     def pure_mcall(self, e, env):
         _, recv, name, args = e
+        r0 = self.strip(recv)
+        if name == "position" and len(args) == 1 and r0[0] == "mcall" and r0[2] == "iter" and not r0[3]:
+            # `v.iter().position(|x| pure predicate)`: index of the first element satisfying it
+            cl = self.strip(args[0])
+            try:
+                vl, vt = self.pure(r0[1], env)
+            except Unsupported:
+                return None
+            if vt.startswith("Vec<") and cl[0] == "closure" and len(cl[1]) == 1:
+                x_ = self.fresh(cl[1][0] + "_")
+                pl = self.cond(cl[2], dict(env, **{cl[1][0]: (x_, vt[4:-1])}))
+                return (f"(List.findIdx? (fun {x_} => decide {pl}) {vl})", "Option<usize>")
         try:
             rl, rt = self.pure(recv, env)
         except Unsupported:
@@ -1613,6 +1627,13 @@ class Gen:
                     return f"(Comp.unwrap {r} fun {v} =>\n {k(v, rt_[7:-1])})"
                 if rt_.startswith("Option<") and name == "unwrap_or_else":
                     a = self.strip(args[0])
+                    if a[0] == "closure" and not a[1] and not (self.strip(a[2])[0] == "macro" and self.strip(a[2])[1] == "panic_with_error"):
+                        # `opt.unwrap_or_else(|| pure default)`
+                        try:
+                            d_, dt_ = self.pure(a[2], env)
+                        except Unsupported:
+                            raise Unsupported("unwrap_or_else with a closure that is neither a panic nor a pure value")
+                        return k(f"(Option.getD {r} {d_})", rt_[7:-1])
                     if not (a[0] == "closure" and not a[1] and self.strip(a[2])[0] == "macro" and self.strip(a[2])[1] == "panic_with_error"):
                         raise Unsupported("unwrap_or_else with a non-panicking closure")
                     v = self.fresh("v")
@@ -1689,7 +1710,7 @@ class Gen:
                 if lhs[0] != "var":
                     raise Unsupported("assignment to a non-variable")
                 acc.add(lhs[1])
-            elif st[0] == "expr" and self.strip(st[1])[0] == "mcall" and self.strip(st[1])[2] in ("push_back", "append", "extend_from_array") \
+            elif st[0] == "expr" and self.strip(st[1])[0] == "mcall" and self.strip(st[1])[2] in ("push_back", "append", "extend_from_array", "remove") \
                     and self.strip(self.strip(st[1])[1])[0] == "var":
                 acc.add(self.strip(self.strip(st[1])[1])[1])     # a growing collection is a re-bound variable
             elif st[0] == "while":
@@ -1940,6 +1961,17 @@ class Gen:
                     return self.tr(e[3][0], env, kpb, ret)
             if s[0] == "expr":
                 e = self.strip(s[1])
+                if e[0] == "mcall" and e[2] == "remove" and len(e[3]) == 1 and self.strip(e[1])[0] == "var" \
+                        and env.get(self.strip(e[1])[1], ("", ""))[1].startswith("Vec<"):
+                    # `v.remove(i);` on a local vector (the returned element is dropped)
+                    vn = self.strip(e[1])[1]
+                    old, vt_ = env[vn]
+                    il, it_ = self.pure(e[3][0], env)
+                    if not (it_ in NATTY or it_ == "int"):
+                        raise Unsupported("Vec::remove with an index of type " + it_)
+                    return go(i + 1, dict(env, **{vn: (f"(List.eraseIdx {old} {as_nat(il, it_)})", vt_)}))
+            if s[0] == "expr":
+                e = self.strip(s[1])
                 if e[0] == "mcall" and e[2] in ("append", "extend_from_array") and len(e[3]) == 1 and self.strip(e[1])[0] == "var" \
                         and env.get(self.strip(e[1])[1], ("", ""))[1] == "Bytes":
                     vn = self.strip(e[1])[1]
@@ -2037,10 +2069,14 @@ class Gen:
                     def outer_assigned(stmts_):
                         loc = {x[1] for x in stmts_ if x[0] == "let"}
                         return self.assigned_vars(stmts_, set()) - loc
-                    if outer_assigned(tb[1]):
-                        raise Unsupported("if-let statement that assigns")
+                    oa_ = outer_assigned(tb[1])
                     def after(env2):
-                        return go(i + 1, dict(env, **{"$st": env2["$st"]}) if "$st" in env2 else env)
+                        # the continuation is emitted once per branch, so each branch carries its own values of
+                        # the outer variables it assigned
+                        upd_ = {v_: env2[v_] for v_ in oa_ if v_ in env2 and v_ in env}
+                        if "$st" in env2:
+                            upd_["$st"] = env2["$st"]
+                        return go(i + 1, dict(env, **upd_))
                     def kil(a, t):
                         if not t.startswith("Option<"):
                             raise Unsupported("if-let on " + t)
@@ -2094,6 +2130,9 @@ class Gen:
             if unit_if(t_):
                 return ("block", b[1] + [("expr", b[2])], None)
             if t_[0] == "match" and any(p_[0] == "vstruct" for p_, _ in t_[2]):
+                return ("block", b[1] + [("expr", b[2])], None)
+            if t_[0] == "iflet" and t_[4] is None and t_[3][0] == "block" and t_[3][2] is None:
+                # a trailing `if let Some(x) = v { statements }` without else: a statement
                 return ("block", b[1] + [("expr", b[2])], None)
         return b
 
@@ -2543,6 +2582,18 @@ FILES_ST = [("SimpleThreshold", "packages/accounts/src/policies/simple_threshold
 STORE_AC = {"Access": {"HasRole": (["Address", "Symbol"], "u32"), "Admin": ([], "Address"), "RoleAdmin": (["Symbol"], "Symbol")}}
 FILES_AC = [("Access", "packages/access/src/access_control/storage.rs",
              ["has_role", "get_admin", "get_role_admin", "ensure_if_admin_or_admin_role", "ensure_role"])]
+STORE_ACF = {"AccessF": {"HasRole": (["Address", "Symbol"], "u32"), "Admin": ([], "Address"), "RoleAdmin": (["Symbol"], "Symbol"),
+                         "RoleAccountsCount": (["Symbol"], "u32"), "RoleAccounts": (["RoleAccountKey"], "Address"),
+                         "ExistingRoles": ([], "Vec<Symbol>")}}
+STRUCTS_ACF = {"RoleAccountKey": [("role", "Symbol"), ("index", "u32")]}
+READS_ACF = {"AccessF": {"authorized": "addr2bool"}}
+FILES_ACF = [("AccessF", "packages/access/src/access_control/mod.rs", []),
+             ("AccessF", "packages/access/src/access_control/storage.rs",
+              ["has_role", "get_admin", "get_role_member_count", "get_role_member", "get_role_admin", "get_existing_roles",
+               "grant_role", "grant_role_no_auth", "revoke_role", "revoke_role_no_auth", "renounce_role",
+               "set_role_admin", "set_role_admin_no_auth", "remove_role_admin_no_auth", "remove_role_accounts_count_no_auth",
+               "ensure_if_admin_or_admin_role", "ensure_role", "enforce_admin_auth",
+               "add_to_role_enumeration", "remove_from_role_enumeration"])]
 STORE_RWA = {"Rwa": {"Balance": (["Address"], "i128"), "TotalSupply": ([], "i128"), "AddressFrozen": (["Address"], "bool"),
                      "FrozenTokens": (["Address"], "i128"), "Compliance": ([], "Address"), "IdentityVerifier": ([], "Address"),
                      "Paused": ([], "bool"), "Allowance": (["AllowanceKey"], "AllowanceData")}}
@@ -3155,6 +3206,9 @@ def main():
                             rename_types={"ApprovalData": "Nft.ApprovalData"})
         elif "--simple-threshold" in sys.argv:
             txt = translate(repo, FILES_ST, reads=READS_ST, structs=STRUCTS_ST, store=STORE_ST)
+        elif "--access-full" in sys.argv:
+            txt = translate(repo, FILES_ACF, reads=READS_ACF, structs=STRUCTS_ACF, store=STORE_ACF,
+                            rename_types={"RoleAccountKey": "AccessF.RoleAccountKey"})
         elif "--access" in sys.argv:
             txt = translate(repo, FILES_AC, reads={"Access": {}}, store=STORE_AC)
         elif "--rwa" in sys.argv:
